@@ -43,6 +43,8 @@ ReadVerdict(e) ==
       mine == OnPid(e.packets, e.pid)
       pay == PmtPayload(e.ptr, e.before, pmt, 0) IN
   IF ~WFPmt(pmt) THEN "harness-bad-abs"
+  \* (e.lead_n copies of the packet e.lead of another PID come first: they are not packets of this table)
+  ELSE IF e.lead_n > 0 /\ (Len(e.lead) # 188 \/ Get("pid", e.lead) = e.pid) THEN "harness-bad-lead"
   ELSE IF ~IsCarriage(mine, pay) THEN "harness-bad-carriage"
   ELSE IF Len(pmt.streams) = 0 THEN (IF e.err = "nil" THEN "empty-pmt-not-skipped" ELSE "")
   ELSE Decoded(e, pmt)
